@@ -51,6 +51,7 @@ SPEC = {
     'the constancy check of the broadcast pass and jax.vmap unbatchedness are modelled by their verdict only; when they pass, the constants are the body outputs on the first iteration inputs',
     'single scope, collections hold flat name->array dicts (no nested modules inside the loop body), no AxisMetadata boxes (C19 covers add_axis/remove_axis), data_transform / _split_transpose not modelled; check_constancy_invariants=False (simple_scan_fn) is modelled: broadcast collections are inputs only there',
     'PRNG counters (fold_in of the per-scope draw counter) are C09; here a key is identified with the stream key it was folded from',
+    'lifting over several scopes (a body Module holding bound sub-Modules passed in from outside the lift: get_module_scopes / set_module_scopes / _dedup_scopes) is outside the single-scope Lean model; it is checked against the property oracle only (explicit per-step application of the unlifted body on the same variables)',
   ],
   'model_partial': [
     'remat_scan_eq_nested_loops_partial: proved (a) lift.remat_scan = the NEST of explicit loops, one per entry of lengths, each the explicit loop of scan_eq_loop, and '
@@ -1632,6 +1633,225 @@ def check_axis_size_inference(ctx, drv, rng, thorough):
 
 
 # ------------------------------------------------------------------------------------------------
+# lifting over several scopes: a body Module that holds bound sub-Modules handed in from OUTSIDE the lift
+# (constructor attributes).  nn.scan / nn.vmap collect their scopes (get_module_scopes) and re-bind them inside
+# (set_module_scopes); the single-scope Lean model does not cover this, the property oracle does: the lifted
+# result must equal the explicit per-step / per-index application of the unlifted body on the same variables.
+# ------------------------------------------------------------------------------------------------
+
+SUB_NAMES = ['proj', 'head', 'zeta', 'alpha', 'mid', 'beta', 'out', 'enc']
+
+
+class _Lin(nn.Module):
+  """integer layer: 'ew' y = w*x + b (w: (d,)), 'mm' y = x @ w + b (w: (d, d)); counts its calls in 'cnt'"""
+  kind: str = 'ew'
+  d: int = 2
+  step: int = 1
+
+  @nn.compact
+  def __call__(self, x):
+    wshape = (self.d,) if self.kind == 'ew' else (self.d, self.d)
+    w = self.param('w', lambda k: jnp.zeros(wshape, jnp.int32))
+    b = self.param('b', lambda k: jnp.zeros((self.d,), jnp.int32))
+    if self.has_variable('cnt', 'n') or self.is_mutable_collection('cnt'):
+      n = self.variable('cnt', 'n', lambda: jnp.zeros((), jnp.int32))
+      if self.is_mutable_collection('cnt'):
+        n.value = n.value * 2 + self.step
+      x = x + n.value
+    return (w * x if self.kind == 'ew' else x @ w) + b
+
+
+_SUB_CLASSES = {}
+
+
+def _sub_body(names, style):
+  """a Module class whose dataclass fields, in DECLARATION order `names`, are the sub-Modules it applies in that
+  order (composition is not commutative: distinct w, b per layer)"""
+  key = (tuple(names), style)
+  if key in _SUB_CLASSES:
+    return _SUB_CLASSES[key]
+  if style == 'scan':
+    def call(self, c, x):
+      for nm in names[:-1]:
+        c = getattr(self, nm)(c) + x
+      return c, getattr(self, names[-1])(c) - x
+  else:
+    def call(self, x):
+      y = x
+      for k_, nm in enumerate(names):
+        y = getattr(self, nm)(y) + (k_ + 1) * x
+      return y
+  cls = type('SubBody', (nn.Module,), {'__annotations__': {nm: nn.Module for nm in names}, '__call__': call})
+  _SUB_CLASSES[key] = cls
+  return cls
+
+
+def _sub_layers(case):
+  return [_Lin(kind=k, d=case['d'], step=i + 1, name=nm) for i, (nm, k) in enumerate(zip(case['names'], case['kinds']))]
+
+
+def _sub_lift_kwargs(case):
+  pax = case['params_axis']
+  if case['lift'] == 'scan':
+    kw = dict(split_rngs={'params': False}, in_axes=case['in_axis'], out_axes=case['out_axis'], reverse=case['reverse'],
+              unroll=case['unroll'], check_constancy_invariants=case['check_const'])
+    if pax is None:
+      kw['variable_broadcast'] = 'params'
+    else:
+      kw['variable_axes'] = {'params': pax}
+    if case['cnt']:
+      kw['variable_carry'] = 'cnt'
+    return kw
+  axes = {'params': pax}
+  if case['cnt']:
+    axes['cnt'] = None
+  return dict(variable_axes=axes, split_rngs={'params': False}, in_axes=case['in_axis'], out_axes=case['out_axis'])
+
+
+def _sub_variables(case):
+  r = np.random.RandomState(case['vseed'])
+  T, d = case['T'], case['d']
+  params, cnt = {}, {}
+  for nm, k in zip(case['names'], case['kinds']):
+    wshape = (d,) if k == 'ew' else (d, d)
+    def mk(shape):
+      a = r.randint(-3, 4, size=shape).astype(np.int32)
+      return a
+    def lifted(shape):
+      pax = case['params_axis']
+      if pax is None:
+        return mk(shape)
+      full = list(shape)
+      full.insert(norm_ax(pax, len(shape) + 1), T)
+      return mk(tuple(full))
+    params[nm] = {'w': lifted(wshape), 'b': lifted((d,))}
+    cnt[nm] = {'n': np.asarray(r.randint(0, 3), np.int32)}
+  v = {'params': params}
+  if case['cnt']:
+    v['cnt'] = cnt
+  return v
+
+
+def _sub_inputs(case):
+  r = np.random.RandomState(case['vseed'] + 1)
+  T, d = case['T'], case['d']
+  sh = [d]
+  sh.insert(norm_ax(case['in_axis'], 2), T)
+  xs = r.randint(-2, 3, size=sh).astype(np.int32)
+  c = r.randint(-2, 3, size=(d,)).astype(np.int32)
+  return c, xs
+
+
+def run_submodule_impl(case):
+  names, lift_ = case['names'], case['lift']
+  Body = _sub_body(names, lift_)
+  kw = _sub_lift_kwargs(case)
+
+  class Top(nn.Module):
+    @nn.compact
+    def __call__(self, *a):
+      layers = _sub_layers(case)
+      L = (nn.scan if lift_ == 'scan' else nn.vmap)(Body, **kw)
+      return L(*layers)(*a)
+
+  variables = jax.tree_util.tree_map(jnp.asarray, _sub_variables(case))
+  c, xs = _sub_inputs(case)
+  a = (jnp.asarray(c), jnp.asarray(xs)) if lift_ == 'scan' else (jnp.asarray(xs),)
+  mutable = ['cnt'] if (case['cnt'] and lift_ == 'scan') else False
+  try:
+    res = Top().apply(variables, *a, mutable=mutable)
+    out, upd = res if mutable else (res, {})
+    return ('ok', jax.tree_util.tree_map(np.asarray, (out, flax_core.unfreeze(upd))))
+  except Exception as e:
+    return classify(e)
+
+
+def run_submodule_oracle(case):
+  """explicit loop / per-index stack: the UNLIFTED body applied once per step to the same variables, every lifted
+  collection sliced along its declared axis"""
+  names, lift_ = case['names'], case['lift']
+  Body = _sub_body(names, lift_)
+
+  class Step(nn.Module):
+    @nn.compact
+    def __call__(self, *a):
+      return Body(*_sub_layers(case))(*a)
+
+  variables = _sub_variables(case)
+  c, xs = _sub_inputs(case)
+  T, pax = case['T'], case['params_axis']
+  try:
+    ys = [None] * T
+    cnt = variables.get('cnt')
+    order = list(range(T))
+    if lift_ == 'scan' and case['reverse']:
+      order.reverse()
+    for t in order:
+      v = {'params': variables['params'] if pax is None else jax.tree_util.tree_map(lambda a: take(a, t, pax), variables['params'])}
+      if cnt is not None:
+        v['cnt'] = cnt
+      x_t = take(xs, t, case['in_axis'])
+      if lift_ == 'scan':
+        mutable = ['cnt'] if case['cnt'] else False
+        res = Step().apply(v, c, x_t, mutable=mutable)
+        (c, ys[t]), upd = res if mutable else (res, {})
+        if mutable:
+          cnt = flax_core.unfreeze(upd)['cnt']
+      else:
+        ys[t] = Step().apply(v, x_t)
+    y = stack([np.asarray(a) for a in ys], case['out_axis'])
+    if lift_ == 'scan':
+      return ('ok', jax.tree_util.tree_map(np.asarray, ((c, y), {'cnt': cnt} if case['cnt'] else {})))
+    return ('ok', jax.tree_util.tree_map(np.asarray, (y, {})))
+  except Exception as e:
+    return classify(e)
+
+
+def gen_submodule_case(rng):
+  k = rng.choice([2, 2, 3])
+  names = rng.sample(SUB_NAMES, k)
+  if names == sorted(names):
+    names.reverse()  # declaration order must differ from alphabetical order
+  lift_ = rng.choice(['scan', 'scan', 'vmap'])
+  same_shapes = rng.random() < 0.7
+  kinds = [rng.choice(['ew', 'mm'])] * k if same_shapes else [rng.choice(['ew', 'mm']) for _ in range(k)]
+  if not same_shapes and len(set(kinds)) == 1:
+    kinds[0] = 'mm' if kinds[0] == 'ew' else 'ew'
+  return {
+    'kind': 'submods', 'lift': lift_, 'names': names, 'kinds': kinds, 'd': rng.choice([2, 3]), 'T': rng.choice([2, 3, 4]),
+    'params_axis': rng.choice([None, None, 0, -1]), 'cnt': rng.random() < 0.5,
+    'in_axis': rng.choice([0, 1, -1, -2]), 'out_axis': rng.choice([0, 1, -1, -2]),
+    'reverse': rng.random() < 0.5, 'unroll': rng.choice([1, 2]), 'check_const': rng.random() < 0.7,
+    'vseed': rng.randrange(10 ** 6),
+  }
+
+
+def _tree_json(t):
+  return jax.tree_util.tree_map(lambda a: arr_json(a), t)
+
+
+def check_submodule_case(ctx, case):
+  case = {k: v for k, v in case.items() if k != 'origin'}
+  ctx.case(case)
+  ctx.count('submodule_family', f"{case['lift']}/{len(case['names'])} attrs/{'same' if len(set(case['kinds'])) == 1 else 'different'} shapes/params axis {case['params_axis']}")
+  impl = run_submodule_impl(case)
+  orc = run_submodule_oracle(case)
+  _housekeeping()
+  if orc[0] == 'err':
+    if impl[0] == 'ok':
+      ctx.violation(f"{case['lift']}-submodules-works-where-loop-raises", f'the explicit application raised {orc[1]} but nn.{case["lift"]} over sub-Module attributes {case["names"]} returned a value', case)
+    else:
+      ctx.count('submodule_error_agreed', f'{impl[1]}')
+    return
+  if impl[0] == 'err':
+    ctx.violation(f"{case['lift']}-submodules-raises-where-loop-works", f'nn.{case["lift"]} over a body with sub-Module attributes {case["names"]} (declaration order) raised {impl[1]}; the explicit per-step application on the same variables works', case)
+    return
+  a, b = _tree_json(impl[1]), _tree_json(orc[1])
+  if a != b:
+    ctx.violation(f"{case['lift']}-submodules-differ-from-loop", f'nn.{case["lift"]} over a body holding sub-Modules {case["names"]} (kinds {case["kinds"]}) differs from the explicit per-step application on the same variables: lifted={json.dumps(a)[:300]} loop={json.dumps(b)[:300]}', case)
+
+
+# ------------------------------------------------------------------------------------------------
 # entry points
 # ------------------------------------------------------------------------------------------------
 
@@ -1757,6 +1977,8 @@ def run(ctx):
   check_move_axis(ctx, drv, thorough)
   check_length_inference(ctx, drv, rng, thorough)
   check_axis_size_inference(ctx, drv, rng, thorough)
+  for _ in range(24 if not thorough else 300):
+    check_submodule_case(ctx, gen_submodule_case(rng))
   n_scan, n_vmap, n_remat, n_wild = (70, 35, 16, 35) if not thorough else (1200, 600, 200, 600)
   cases = []
   for _ in range(n_scan):
@@ -1794,6 +2016,8 @@ def _run_case(ctx, drv, obj):
     check_length_inference(ctx, drv, ctx.rng, True)
   elif kind == 'axis-size-inference':
     check_axis_size_inference(ctx, drv, ctx.rng, True)
+  elif kind == 'submods':
+    check_submodule_case(ctx, case)
   else:
     ctx.notes.append(f'unknown corpus case kind {kind}')
 
